@@ -3,7 +3,7 @@ that already solves the system.  Convergence within O(n) iterations and agreemen
 are statements about values of Krylov recurrences: not applicable to static analysis."""
 from .pdb import strip, walk, loc, ancestors
 from .terms import Ctx, num, show
-from .common import P, effects, is_zero_term
+from .common import P, effects, is_zero_term, callee_path
 from .guards import facts, cond_atoms, diverges
 from .c08 import Solver, SOLVERS, S64, tested_vector, norm_def, TOL, X_, _pos
 
@@ -127,6 +127,13 @@ def run(rep, pdb, tier):
         if r is not None:
             from .c08 import rule_recurrence
             rule_recurrence(rep, sv, name, r)
+        # ---- the shadow (left) sequence of BiCG / QMR is driven by A^T on every iteration
+        if name in ("solve_bicg", "solve_qmr"):
+            tms = [n for n in walk(sv.main["body"]) if n.get("k") == "MethodCall" and (callee_path(n) or "").endswith("::transpose_multiply") and ctx.term(n["recv"]) == P(0)]
+            cond_ = [a for n in tms for a in ancestors(n) if a.get("k") in ("If", "Match") and any(x is sv.main for x in ancestors(a))]
+            rep.add("transpose-product/%s" % name, "the loop applies A^T (transpose_multiply) exactly once per iteration, unconditionally: replacing it by the A-product or a copy under a run-time "
+                    "`symmetric` test makes the method depend on that test", len(tms) == 1 and not cond_, tms[0] if tms else sv.main,
+                    "transpose products in the loop: %d, under a condition: %d" % (len(tms), len(cond_)))
         # ---- a converged recurrence is never iterated further
         rule_not_continued(rep, sv, name)
         # ---- loop-carried state is refreshed on every iteration
@@ -136,6 +143,7 @@ def run(rep, pdb, tier):
     rep.floor("breakdown-exact/", 4)
     rep.floor("breakdown-free/", 4)
     rep.floor("carried/", 4)
+    rep.floor("transpose-product/", 2)
     rep.floor("recurrence-not-continued/", 5)
     rep.floor("unconfirmed-restarts/", 5)
     rep.floor("residual-tracks-iterate/", 5)
